@@ -191,6 +191,36 @@ def _fm(les, eqs, keep):
                 return True
             continue
         cur.add(e)
+    # integer propagation before the (rational) elimination: a variable pinned to one value by its single-variable
+    # bounds (after gcd tightening) is substituted, which can pin the next one (len = 16q + r, r = 0, 1 <= len <= 16)
+    for _round in range(8):
+        lo, hi = {}, {}
+        for e in cur:
+            if len(e.t) == 1:
+                (s_, v_), = e.t.items()
+                if s_ in keep:
+                    continue
+                if v_ == 1:
+                    hi[s_] = min(hi.get(s_, -e.c), -e.c)
+                elif v_ == -1:
+                    lo[s_] = max(lo.get(s_, e.c), e.c)
+        fixed = {s_: lo[s_] for s_ in lo if s_ in hi and lo[s_] == hi[s_]}
+        if any(s_ in hi and lo[s_] > hi[s_] for s_ in lo):
+            return True
+        if not fixed:
+            break
+        nxt = set()
+        for e in cur:
+            for s_, val in fixed.items():
+                if s_ in e.t:
+                    e = e.subst(s_, Lin.const(val))
+            e = _norm_le(e)
+            if not e.t:
+                if e.c > 0:
+                    return True
+                continue
+            nxt.add(e)
+        cur = nxt
     stats["fm_runs"] += 1
     while True:
         vars_ = {}
